@@ -75,15 +75,25 @@ fn establish(path: &Path, s: &PState, mtime: FileTime) -> std::io::Result<()> {
     PState::File { len, seed } => { fs::write(path, content(*len, *seed))?; }
     PState::Dir { names } => {
       fs::create_dir(path)?;
-      for n in names { fs::write(path.join(os_name(n)), b"x")?; }
+      for n in names {
+        // A trailing '@' makes the entry a dangling symlink, a trailing '/' a subdirectory; the entry *name* is the rest.
+        match n.chars().last() {
+          Some('@') => { std::os::unix::fs::symlink("pv-no-such-target", path.join(os_name(entry_name(n))))?; }
+          Some('/') => { fs::create_dir(path.join(os_name(entry_name(n))))?; }
+          _ => { fs::write(path.join(os_name(n)), b"x")?; }
+        }
+      }
     }
   }
   if !matches!(s, PState::Absent) { filetime::set_file_mtime(path, mtime)?; }
   Ok(())
 }
 
+/// Entry name without the kind marker.
+fn entry_name(n: &str) -> &str { n.strip_suffix('@').or_else(|| n.strip_suffix('/')).filter(|x| !x.is_empty()).unwrap_or(n) }
+
 fn name_set(s: &PState) -> Option<std::collections::BTreeSet<String>> {
-  if let PState::Dir { names } = s { Some(names.iter().cloned().collect()) } else { None }
+  if let PState::Dir { names } = s { Some(names.iter().map(|n| entry_name(n).to_string()).collect()) } else { None }
 }
 
 /// A task that reads a file through Context::read with the hash checker and returns its bytes.
@@ -225,21 +235,23 @@ pub fn check(case: &FCase, stats: &mut Stats) -> CheckResult {
 }
 
 fn name() -> impl Strategy<Value=String> {
-  proptest::collection::vec(prop_oneof![6 => 0u8..3, 1 => 3u8..5], 1..=3).prop_map(|v| v.into_iter().map(|b| match b { 3 => '\u{e8}', 4 => '\u{e9}', b => (b'a' + b) as char }).collect())
+  proptest::collection::vec(prop_oneof![6 => 0u8..3, 1 => 3u8..5], 1..=3).prop_map(|v| v.into_iter().map(|b| match b { 3 => '\u{e8}', 4 => '\u{e9}', b => (b'a' + b) as char }).collect::<String>())
+    .prop_flat_map(|n| prop_oneof![6 => Just(n.clone()), 1 => Just(format!("{}@", n)), 1 => Just(format!("{}/", n))])
 }
 
 fn pstate() -> impl Strategy<Value=PState> {
   prop_oneof![
     2 => Just(PState::Absent),
     5 => (prop_oneof![Just(0u32), Just(1), Just(8191), Just(8192), Just(8193), Just(16384), Just(65537), 0u32..30_000], 0u8..4).prop_map(|(len, seed)| PState::File { len, seed }),
-    5 => proptest::collection::vec(name(), 0..=4).prop_map(|mut names| { let mut seen = std::collections::BTreeSet::new(); names.retain(|n| seen.insert(n.clone())); PState::Dir { names } }),
+    5 => proptest::collection::vec(name(), 0..=4).prop_map(|mut names| { let mut seen = std::collections::BTreeSet::new(); names.retain(|n| seen.insert(entry_name(n).to_string())); PState::Dir { names } }),
   ]
 }
 
 /// A directory listing derived from another by merging two names into one or splitting one name in two: a different
 /// name set whose concatenation can coincide with the original's.
 fn resplit(names: &[String], sel: u16, rev: bool) -> Vec<String> {
-  let mut v: Vec<String> = names.to_vec();
+  // Work on the entry names proper (kind markers dropped: a '/' may only ever be a trailing marker).
+  let mut v: Vec<String> = names.iter().map(|n| entry_name(n).to_string()).collect();
   if v.len() >= 2 && sel % 2 == 0 {
     let i = (sel as usize / 2) % v.len();
     let a = v.remove(i);
@@ -253,7 +265,7 @@ fn resplit(names: &[String], sel: u16, rev: bool) -> Vec<String> {
     v.push(n[cut..].iter().collect());
   }
   let mut seen = std::collections::BTreeSet::new();
-  v.retain(|n| seen.insert(n.clone()));
+  v.retain(|n| seen.insert(entry_name(n).to_string()));
   v
 }
 
@@ -405,7 +417,7 @@ pub fn replay(path: &Path) -> Result<CheckResult, String> {
 }
 
 pub fn run(tier: Tier, seed: u64) -> i32 {
-  let rule = "proptest-generated (state when stamped, state when checked, checker) over a real temp directory: states = absent / file of size 0,1,8191,8192,8193,16384,65537 or random <100k with pseudo-random bytes / directory whose entry names are drawn from strings of length 1-3 over {a,b,c} and the two non-UTF-8 bytes 0xE8/0xE9 (so concatenations collide and some names are not valid UTF-8); modification times set explicitly (filetime) with whole-second and sub-second parts (0, 1 ns, 0.5 s, 999999999 ns), equal, within one second or seconds apart (the expectation uses the times the filesystem actually stored); oracle: stamp(path) = stamp_reader(fresh reader) = stamp_writer(writer just used through Resource::write); check vs fresh stamp consistent; after stamp_reader the full content is readable (also through a task under Pie); after moving to the second state check is inconsistent iff the observed aspect differs (existence; existence or mtime; absent<->present, file content, directory name set - file<->directory and same names re-created are not asserted); PathBuf::write truncates/creates files and refuses directories; a quarter of the file pairs change the content but keep length (and often mtime). Second search: sequences of 2-6 steps (new state or leave untouched) on ONE Pie instance / resource state: in every step all earlier stamps are checked (1-3 rounds) against the current state with the same oracle, then the state is stamped through path, fresh reader and - for files written through Resource::write - the writer, which must agree; non-trivial = the two states differ, or file >= 8 KiB buffer, or directory with >=2 entries (pairs), >=2 state changes (sequences); distinct by case hash";
+  let rule = "proptest-generated (state when stamped, state when checked, checker) over a real temp directory: states = absent / file of size 0,1,8191,8192,8193,16384,65537 or random <100k with pseudo-random bytes / directory whose entry names are drawn from strings of length 1-3 over {a,b,c} and the two non-UTF-8 bytes 0xE8/0xE9 (so concatenations collide and some names are not valid UTF-8), entries being regular files, subdirectories or dangling symbolic links; modification times set explicitly (filetime) with whole-second and sub-second parts (0, 1 ns, 0.5 s, 999999999 ns), equal, within one second or seconds apart (the expectation uses the times the filesystem actually stored); oracle: stamp(path) = stamp_reader(fresh reader) = stamp_writer(writer just used through Resource::write); check vs fresh stamp consistent; after stamp_reader the full content is readable (also through a task under Pie); after moving to the second state check is inconsistent iff the observed aspect differs (existence; existence or mtime; absent<->present, file content, directory name set - file<->directory and same names re-created are not asserted); PathBuf::write truncates/creates files and refuses directories; a quarter of the file pairs change the content but keep length (and often mtime). Second search: sequences of 2-6 steps (new state or leave untouched) on ONE Pie instance / resource state: in every step all earlier stamps are checked (1-3 rounds) against the current state with the same oracle, then the state is stamped through path, fresh reader and - for files written through Resource::write - the writer, which must agree; non-trivial = the two states differ, or file >= 8 KiB buffer, or directory with >=2 entries (pairs), >=2 state changes (sequences); distinct by case hash";
   let mut report = Report::new("C13", tier, seed, "exploration", rule);
   let known = Known::load("C13");
   super::prologue(&mut report, &known);
